@@ -197,9 +197,19 @@ Definition transform_by {P A} (pa : path) (D : P -> dist_inst) (bs : bij_spec A)
   | PDeprecated => transform_dep D bs p0 a0 v0
   end.
 
-(* log_prob of a model whose only changed summand is the transformed variable *)
-Definition model_log_prob (others : R) (own : option R) : option R :=
-  option_map (fun l => others + l) own.
+(* Model.log_prob as a function of the original variable's value x: the variable's own
+   log-density plus everything else (`others x`: the summands of the other variables, which
+   may read x, e.g. a child's distribution) *)
+Definition model_lp_before (others : R -> R) (d : dist_inst) (x : R) : R :=
+  others x + d_logpdf d x.
+
+(* Model.log_prob after the transformation, as a function of the new variable's value t: the
+   original variable has no distribution any more, its value is recomputed by its Calc *)
+Definition model_lp_after {P A} (others : R -> R) (r : tresult P A) (p : P) (a : A) (t : R) : option R :=
+  match r_value r p a t, r_logpdf r p a t with
+  | Some x, Some l => Some (others x + l)
+  | _, _ => None
+  end.
 
 (* ------------------------------------------------------------------------------------------ *)
 (* 4. distribution families used by the correspondence (closed forms of tfp's log_prob)         *)
@@ -216,14 +226,44 @@ Definition invgamma_logpdf (conc scale lgam x : R) : R :=
 
 Definition exponential_logpdf (rate x : R) : R := ln rate - rate * x.
 
+(* tfd.HalfNormal(scale) *)
+Definition halfnormal_logpdf (scale x : R) : R :=
+  ln 2 / 2 - ln PI / 2 - ln scale - (x / scale) * (x / scale) / 2.
+
+(* tfd.HalfCauchy(loc, scale) *)
+Definition halfcauchy_logpdf (loc scale x : R) : R :=
+  ln 2 - ln PI - ln scale - ln (1 + ((x - loc) / scale) * ((x - loc) / scale)).
+
+(* tfd.Beta(concentration1 = a, concentration0 = b); lbeta = ln B(a, b), supplied as a number *)
+Definition beta_logpdf (a b lbeta x : R) : R :=
+  (a - 1) * ln x + (b - 1) * ln (1 - x) - lbeta.
+
+(* tfd.LogNormal(loc, scale) *)
+Definition lognormal_logpdf (loc scale x : R) : R :=
+  normal_logpdf loc scale (ln x) - ln x.
+
+(* HalfCauchy's default event-space bijector in tfp 0.25: Chain([Shift(loc), Exp]) *)
+Definition bShiftExp (loc : R) : bijector := Chain (bShift loc) bExp.
+
 Definition dNormal (p : R * R) : dist_inst :=
   mkDist (normal_logpdf (fst p) (snd p)) (Some bIdentity).
+Definition dHalfNormal (p : R) : dist_inst :=
+  mkDist (halfnormal_logpdf p) (Some bSoftplus).
+Definition dHalfCauchy (p : R * R) : dist_inst :=
+  mkDist (halfcauchy_logpdf (fst p) (snd p)) (Some (bShiftExp (fst p))).
 Definition dGamma (p : R * R * R) : dist_inst :=
   mkDist (gamma_logpdf (fst (fst p)) (snd (fst p)) (snd p)) (Some bSoftplus).
 Definition dInvGamma (p : R * R * R) : dist_inst :=
   mkDist (invgamma_logpdf (fst (fst p)) (snd (fst p)) (snd p)) (Some bRecipSoftplus).
+Definition dBeta (p : R * R * R) : dist_inst :=
+  mkDist (beta_logpdf (fst (fst p)) (snd (fst p)) (snd p)) (Some bSigmoid).
 Definition dExponential (p : R) : dist_inst :=
   mkDist (exponential_logpdf p) (Some bSoftplus).
+Definition dLogNormal (p : R * R) : dist_inst :=
+  mkDist (lognormal_logpdf (fst p) (snd p)) (Some bExp).
+(* a distribution without a default event-space bijector (the method returns None) *)
+Definition dNoDefault (p : R * R) : dist_inst :=
+  mkDist (normal_logpdf (fst p) (snd p)) None.
 (* a family whose log_prob at the evaluation point is supplied by the real code (oracle value) *)
 Definition dOracle (db : option bijector) (l : R) : dist_inst := mkDist (fun _ => l) db.
 
